@@ -134,17 +134,18 @@ theorem gradeBlocks_fold (inp : Inp) : ∀ k : Nat,
     let st := (List.range k).foldl (gradeAxis inp) (init inp)
     (∀ y, chopsOf st y = inp.chops y) ∧
     (∀ y, y < k → userChopped inp y = true → Own inp st y) ∧
-    (∀ w, k ≤ w / 4 → specOf st w = []) := by
+    (∀ w, k ≤ w / 4 → specOf st w = []) ∧
+    (∀ w, userChopped inp (w / 4) = false → specOf st w = []) := by
   intro k
   induction k with
   | zero =>
     simp only [List.range_zero, List.foldl_nil]
-    exact ⟨fun _ => rfl, fun _ h => absurd h (Nat.not_lt_zero _), fun _ _ => rfl⟩
+    exact ⟨fun _ => rfl, fun _ h => absurd h (Nat.not_lt_zero _), fun _ _ => rfl, fun _ _ => rfl⟩
   | succ k ih =>
     simp only [List.range_succ, List.foldl_append, List.foldl_cons, List.foldl_nil]
-    obtain ⟨hc, ho, he⟩ := ih
-    generalize (List.range k).foldl (gradeAxis inp) (init inp) = st at hc ho he
-    refine ⟨?_, ?_, ?_⟩
+    obtain ⟨hc, ho, he, hn⟩ := ih
+    generalize (List.range k).foldl (gradeAxis inp) (init inp) = st at hc ho he hn
+    refine ⟨?_, ?_, ?_, ?_⟩
     · intro y; rw [gradeAxis_chops]; exact hc y
     · intro y hy hu
       by_cases hyk : y = k
@@ -162,6 +163,18 @@ theorem gradeBlocks_fold (inp : Inp) : ∀ k : Nat,
     · intro w hw
       rw [gradeAxis_spec inp st k w (by omega)]
       exact he w (by omega)
+    · intro w hw
+      by_cases hk : w / 4 = k
+      · have hi : gradeAxis inp st k = st := by
+          unfold gradeAxis
+          rw [← hk, hw]
+          simp only [Bool.false_eq_true, if_false]
+          apply gradePropagated_idle
+          rw [hc]
+          unfold userChopped at hw
+          simpa using hw
+        rw [hi]; exact hn w hw
+      · rw [gradeAxis_spec inp st k w hk]; exact hn w hw
 
 /-- the invariant of the propagation phase -/
 def Inv (inp : Inp) (st : St) : Prop :=
